@@ -4,8 +4,10 @@
 # On success the campaign is added to evidence/<property>.json under coverage.fuzz_campaigns.
 set -u
 T=$1; SECS=$2; PROP=${3:-C02}
+# the connection-level target judges with the oracle of the property it is run for
+[ "$T" = sink ] && export SINK_PROP=$PROP
 cd "$(dirname "$0")/.." || exit 2
-export CARGO_NET_OFFLINE=true VERIF_ROOT=$PWD
+export CARGO_NET_OFFLINE=true VERIF_ROOT=$PWD ASAN_OPTIONS=detect_leaks=0
 ./check --build >/dev/null 2>&1 || { echo "harness build failed"; exit 2; }
 mkdir -p fuzz/logs
 cargo +nightly fuzz build --fuzz-dir fuzz "$T" >fuzz/logs/build-$T.log 2>&1 || { echo "fuzz build failed, see fuzz/logs/build-$T.log"; exit 2; }
@@ -14,7 +16,7 @@ harness/target/release/verif-check --emit-corpus fuzz/corpus-run >/dev/null 2>&1
 SEED=${VERIF_SEED:-1}; [ "$SEED" = 0 ] && SEED=1
 J=${FUZZ_JOBS:-8}
 rm -f fuzz-*.log
-out=$(cargo +nightly fuzz run --fuzz-dir fuzz "$T" fuzz/corpus-run/$T -- -max_total_time=$SECS -seed=$SEED -max_len=4096 -len_control=0 -timeout=20 -rss_limit_mb=4096 -print_final_stats=1 -artifact_prefix=fuzz/artifacts/$T/ -workers=$J -jobs=$J 2>&1)
+out=$(cargo +nightly fuzz run --fuzz-dir fuzz "$T" fuzz/corpus-run/$T -- -max_total_time=$SECS -seed=$SEED -max_len=4096 -len_control=0 -timeout=20 -rss_limit_mb=4096 -print_final_stats=1 -detect_leaks=0 -artifact_prefix=fuzz/artifacts/$T/ -workers=$J -jobs=$J 2>&1)
 rc=$?
 execs=$(cat fuzz-*.log 2>/dev/null | grep "stat::number_of_executed_units" | awk '{s+=$2} END {print s+0}')
 cov=$(cat fuzz-*.log 2>/dev/null | grep -o "cov: [0-9]*" | awk '{if ($2>m) m=$2} END {print m+0}')
